@@ -365,7 +365,7 @@ func (w *World) Extend(ctx context.Context, guid protocol.GUID, k Kind, signerRo
 func ExtendTo(ov *fdo.Voucher, k Kind, signerRole, nextRole string, asChain bool) (*fdo.Voucher, error) {
 	signer := Key(k.PoolKey + "/" + signerRole)
 	if asChain {
-		return fdo.ExtendVoucher(ov, signer, Chain(k.PoolKey+"/"+nextRole), nil)
+		return fdo.ExtendVoucher(ov, signer, OwnerChain(k.PoolKey+"/"+nextRole), nil)
 	}
 	return extendTyped(ov, signer, Key(k.PoolKey+"/"+nextRole).Public())
 }
